@@ -193,6 +193,27 @@ def gen_case(S, tier):
         else:
             op["grid"] = jump.gen_grid(rng, base["t0"], T)
         case = {"engine": "repro", "model": base["model"], "theta": base["theta"], "x0": base["x0"], "t0": base["t0"]}
+        if rng.random() < 0.15:
+            # a large population under tau-leap: 1e4 .. 1e6 expected firings per leap (code paths that depend
+            # on the size of a count or a rate are only reached here)
+            N = rng.choice([2e5, 1e6, 5e6, 2e7])
+            frac = rng.choice([0.02, 0.2])
+            big = {"states": [{"name": "S"}, {"name": "I"}, {"name": "R"}], "params": ["beta", "gamma", "N"],
+                   "processes": [{"rate": "beta*S*I/N", "route": "event", "trans": [{"type": "T", "o": "S", "d": "I", "mag": "1"}]},
+                                 {"rate": "gamma*I", "route": "event", "trans": [{"type": "T", "o": "I", "d": "R", "mag": "1"}]}]}
+            if rng.random() < 0.5:
+                big["processes"].append({"rate": "0.01*gamma*R", "route": "event", "trans": [{"type": "T", "o": "R", "d": "S", "mag": "1"}]})
+            case.update({"model": big, "theta": [round(rng.uniform(0.8, 2.5), 3), round(rng.uniform(0.2, 0.6), 3), N],
+                         "x0": [float(round(N * (1 - frac))), float(round(N * frac)), 0.0], "t0": 0.0})
+            op["exact"] = False
+            op["pre_tau"] = rng.choice([None, None, 0.05])
+            op["n"] = rng.choice([1, 2])
+            Tbig = rng.choice([1.0, 3.0, 6.0])
+            if kind == "stoch":
+                op["T"] = Tbig
+            else:
+                op["grid"] = [round(Tbig * (j + 1) / 4.0, 4) for j in range(4)]
+            base = dict(base, theta=case["theta"], model=big)
         if rng.random() < 0.3 and base["theta"]:
             # random parameters re-drawn for every path of a stochastic simulation
             ref_ = RefModel(base["model"])
